@@ -49,6 +49,8 @@ type State struct {
 	atomicOps []string
 	plainOps []string
 	leftLoop bool // dry-run marker: this state does not flow back to the loop head
+	objHavocT []types.Type // static types of the havocked objects (parallel to objHavoc)
+	objHavoc []string // objects whose every field was havocked (modifies `object x`): applies to field arrays touched later too
 	escaped map[types.Object]string // struct-typed locals whose address was taken: they live in the heap at this reference
 	entryLen int  // number of path-condition conjuncts that describe the entry state (requires, repinv, axioms)
 }
@@ -82,6 +84,8 @@ func (st *State) clone() *State {
 	for k, v := range st.loopSeen {
 		n.loopSeen[k] = v
 	}
+	n.objHavoc = append([]string(nil), st.objHavoc...)
+	n.objHavocT = append([]types.Type(nil), st.objHavocT...)
 	if len(st.escaped) > 0 {
 		n.escaped = make(map[types.Object]string, len(st.escaped))
 		for k, v := range st.escaped {
